@@ -54,6 +54,11 @@ def strategy_transact(chk):
     direct = [e for e in S.calls("transact") if e.recv is not None and e.recv[0] == "sub"]
     ok = bool(direct) and direct[0].args and canon(direct[0].args[0]) == canon(q)
     chk.ob("C17.R5", ok, CORE, host, "transact-child-amount", "a notional transacted on a named child is passed on unchanged", where=S.fn.where)
+    for d in direct:
+        flags = dict((k, v) for k, v in (d.kwargs or {}).items() if k in ("update_self", "update"))
+        okf = all(canon(v) in (canon(sym.TRUE), canon(("param", "update"))) for v in flags.values()) and len(d.args) <= 1
+        chk.ob("C02.R1", okf, CORE, host, "transact-child-refreshes", "the named child trades at its current price: it is left to refresh itself before the trade (an idle child may lag several dates "
+               "behind) and to mark the tree stale after it", where=d.where, expected="child.transact(q)", found=", ".join("%s=%s" % (k, short(v)) for k, v in flags.items()))
 
 
 PRICE_REF = '''
